@@ -577,13 +577,13 @@ func FuzzTextsWCNF(f *testing.F)    { vf.Fuzz(f, "C13", subWCNF) }
 
 func init() {
 	subDimacsSolver = vf.Sub[CNFCase]{Name: "dimacs-solver", Quick: 15000, Thorough: 200000, Gen: genCNF("solver"), Check: checkCNF, Floor: 0.3,
-			Rule: "DIMACS text for solver.ParseCNF written from a CNF (n<=8, empty clauses, duplicate literals, unused declared variables) with layout knobs: comment preamble with or without blank after 'c', header spacing, arbitrary blanks/tabs/newlines between tokens (clauses spanning lines, several clauses per line), comment lines between clauses, CRLF, optional final newline; oracle: the parsed problem, evaluated without solving from its exported data, has exactly the models of the CNF over the declared variables; non-trivial = >=2 clauses and >=1 knob away from the conventional layout"}
+		Rule: "DIMACS text for solver.ParseCNF written from a CNF (n<=8, empty clauses, duplicate literals, unused declared variables) with layout knobs: comment preamble with or without blank after 'c', header spacing, arbitrary blanks/tabs/newlines between tokens (clauses spanning lines, several clauses per line), comment lines between clauses, CRLF, optional final newline; oracle: the parsed problem, evaluated without solving from its exported data, has exactly the models of the CNF over the declared variables; non-trivial = >=2 clauses and >=1 knob away from the conventional layout"}
 	subDimacsExplain = vf.Sub[CNFCase]{Name: "dimacs-explain", Quick: 15000, Thorough: 200000, Gen: genCNF("explain"), Check: checkCNF, Floor: 0.3,
-			Rule: "the same DIMACS texts for explain.ParseCNF; oracle: NbVars/NbClauses match the header and the parsed clause list equals the CNF's, clause by clause; non-trivial as above"}
+		Rule: "the same DIMACS texts for explain.ParseCNF; oracle: NbVars/NbClauses match the header and the parsed clause list equals the CNF's, clause by clause; non-trivial as above"}
 	subOPB = vf.Sub[OPBCase]{Name: "opb", Quick: 10000, Thorough: 120000, Gen: genOPB, Check: checkOPB, Floor: 0.3,
-			Rule: "OPB text written from a PB problem (coefficients of either sign, >= / = / <= (as negated >=), trivially true/false constraints, optional min: line with signed coefficients) with layout knobs: '*' comments, explicit '+' or not, several blanks, CRLF, blank lines, optional final newline, and the zero-space forms the grammar allows ('>=0', '0;', 'min:+1'); oracle: parsed problem evaluated without solving has the text's models; Optimal = brute-force optimum; for up to 3 drawn assignments the text extended with unit constraints pinning the assignment yields exactly that assignment's cost, or Unsat when it violates a constraint; non-trivial as above"}
+		Rule: "OPB text written from a PB problem (coefficients of either sign, >= / = / <= (as negated >=), trivially true/false constraints, optional min: line with signed coefficients) with layout knobs: '*' comments, explicit '+' or not, several blanks, CRLF, blank lines, optional final newline, and the zero-space forms the grammar allows ('>=0', '0;', 'min:+1'); oracle: parsed problem evaluated without solving has the text's models; Optimal = brute-force optimum; for up to 3 drawn assignments the text extended with unit constraints pinning the assignment yields exactly that assignment's cost, or Unsat when it violates a constraint; non-trivial as above"}
 	subWCNF = vf.Sub[WCNFCase]{Name: "wcnf", Quick: 8000, Thorough: 100000, Gen: genWCNF, Check: checkWCNF, Floor: 0.3,
-			Rule: "WCNF text (p wcnf V C [top], one weighted clause per line) with 'c' comments, several blanks, CRLF, optional final newline; oracle: Optimal = brute-force minimum weight of violated soft clauses; pinned assignments (unit hard clauses) give their exact cost or Unsat; non-trivial as above"}
+		Rule: "WCNF text (p wcnf V C [top], one weighted clause per line) with 'c' comments, several blanks, CRLF, optional final newline; oracle: Optimal = brute-force minimum weight of violated soft clauses; pinned assignments (unit hard clauses) give their exact cost or Unsat; non-trivial as above"}
 	subLong := vf.Sub[LongCase]{Name: "long-lines", Quick: 24, Thorough: 100, Gen: genLong, Check: checkLong, Floor: 0,
 		Rule: "texts with very long lines: DIMACS comment lines of 100 bytes to 80 KB (words, or numbers that would read as clauses) for both DIMACS readers, and lines of more than 64 KiB: an OPB objective / clause over 3000..9000 variables, a WCNF hard clause or a DIMACS clause (for explain.ParseCNF) whose literal list is repeated; the meaning is known by construction (optimum = weight of the forced variables, or the smallest weight; clause list read back as written); non-trivial = the longest line exceeds 65536 bytes (4096 for comments)"}
 	vf.Register(subDimacsSolver, subDimacsExplain, subOPB, subWCNF, subLong)
